@@ -26,6 +26,8 @@ type vDB struct {
 	dir      string
 	pending  *memStoreFlushAction // handed to the flusher, table not written yet
 	flusherExited bool
+	compactorExited bool
+	withCompactor bool
 	flushErr error
 	ref      []*vRef
 	sched    int
@@ -49,7 +51,10 @@ func vNewDBEnvU(universe [][]byte) *vDB {
 
 // open creates a DB object on the directory and runs the real Open (recovery included).
 func (h *vDB) open(opts ...ExtraOption) error {
-	opts = append([]ExtraOption{DisableCompactions()}, opts...)
+	if !h.withCompactor {
+		opts = append([]ExtraOption{DisableCompactions()}, opts...)
+	}
+	h.compactorExited = false
 	db, err := NewSimpleDB(h.dir, opts...)
 	vrt.Assert(err == nil, "db/new-no-error")
 	h.db = db
@@ -81,6 +86,15 @@ func (h *vDB) runPending() {
 // onBlock is called when the client thread cannot go on: the flusher goroutine gets to run.
 func (h *vDB) onBlock(what string) {
 	if h.flusherExited {
+		// the compactor goroutine: its select sees the stop signal, returns, the deferred done signal is sent
+		if h.db.enableCompactions && !h.compactorExited {
+			select {
+			case <-h.db.compactionTickerStopChannel:
+				h.compactorExited = true
+				h.db.doneCompactionChannel <- true
+			default:
+			}
+		}
 		return
 	}
 	// the flusher finishes the table it is working on before it receives again
